@@ -40,6 +40,93 @@ type errModel struct {
 	CodeOf   map[string]string // Err* global name -> code
 	StatusOf map[string]int64  // Err* global name -> status from errorStatuses
 	Table    *ssa.Global
+	// TableFn is set instead of Table when the code -> status mapping is a
+	// function `func(code string) (int, bool)` switching over the Err*.Code() values.
+	TableFn *ssa.Function
+}
+
+func (m *errModel) pos() token.Pos {
+	if m.Table != nil {
+		return m.Table.Pos()
+	}
+	if m.TableFn != nil {
+		return m.TableFn.Pos()
+	}
+	return token.NoPos
+}
+
+// isTableMiss: cond says the code has no status in the table (failed comma-ok
+// lookup in the map, or the table function's ok result is false).
+func (m *errModel) isTableMiss(cd facts.Cond) bool {
+	ex, ok := cd.V.(*ssa.Extract)
+	if !ok || ex.Index != 1 || cd.Pos {
+		return false
+	}
+	switch t := ex.Tuple.(type) {
+	case *ssa.Lookup:
+		if g := loadedGlobal(t.X); g != nil && (g == m.Table || globalName(g) == "errorStatuses") {
+			return true
+		}
+	case *ssa.Call:
+		sc := t.Call.StaticCallee()
+		return sc != nil && m.TableFn != nil && sc == m.TableFn
+	}
+	return false
+}
+
+// loadStatusFunc: the switch form of the table.
+func loadStatusFunc(c *core.Ctx, m *errModel) {
+	for _, fn := range pkgFuncs(c, ".") {
+		if fn.Signature.Recv() != nil || sigString(fn.Signature) != "(string)(int,bool)" {
+			continue
+		}
+		found := map[string]int64{}
+		for _, b := range fn.Blocks {
+			iff, ok := b.Instrs[len(b.Instrs)-1].(*ssa.If)
+			if !ok {
+				continue
+			}
+			bo, ok := iff.Cond.(*ssa.BinOp)
+			if !ok || bo.Op != token.EQL {
+				continue
+			}
+			var name string
+			for _, pr := range [][2]ssa.Value{{bo.X, bo.Y}, {bo.Y, bo.X}} {
+				if !argIsParam(pr[0], fn, 0) {
+					continue
+				}
+				if call, isCall := facts.Resolve(pr[1]).(*ssa.Call); isCall && call.Call.IsInvoke() && call.Call.Method.Name() == "Code" {
+					if g := loadedGlobal(call.Call.Value); g != nil {
+						name = g.Name()
+					}
+				}
+			}
+			if name == "" {
+				continue
+			}
+			// the arm: follow unconditional jumps to the return
+			t := b.Succs[0]
+			for d := 0; d < 4 && len(t.Instrs) == 1; d++ {
+				if _, isJ := t.Instrs[0].(*ssa.Jump); !isJ {
+					break
+				}
+				t = t.Succs[0]
+			}
+			if r, isR := t.Instrs[len(t.Instrs)-1].(*ssa.Return); isR && len(r.Results) == 2 {
+				k, isK := facts.ConstInt(facts.RetVal(r, 0))
+				okc, isC := facts.RetVal(r, 1).(*ssa.Const)
+				if isK && isC && okc.Value != nil && okc.Value.ExactString() == "true" {
+					found[name] = k
+				}
+			}
+		}
+		if len(found) >= 5 {
+			m.TableFn = fn
+			for k, v := range found {
+				m.StatusOf[k] = v
+			}
+		}
+	}
 }
 
 func loadErrModel(c *core.Ctx) *errModel {
@@ -92,39 +179,42 @@ func loadErrModel(c *core.Ctx) *errModel {
 			}
 		}
 	}
+	if m.Table == nil {
+		loadStatusFunc(c, m)
+	}
 	return m
 }
 
 func runC07(c *core.Ctx) {
 	m := loadErrModel(c)
-	if len(m.CodeOf) == 0 || m.Table == nil {
-		c.Fail("C07.R1", "anchor/errorStatuses", 0, "Err* values / errorStatuses table not found in the package initialiser")
+	if len(m.CodeOf) == 0 || (m.Table == nil && m.TableFn == nil) {
+		c.Fail("C07.R1", "anchor/errorStatuses", 0, "Err* values / code -> status table (a map[string]int initialised with the Err*.Code() keys, or a func(string) (int, bool) switching over them) not found")
 		return
 	}
 	// R1
 	for name, code := range m.CodeOf {
 		st, has := m.StatusOf[name]
 		if !has {
-			c.Fail("C07.R1", "status/"+code, m.Table.Pos(), "error value "+name+" ("+code+") has no entry in errorStatuses: it is answered 500 and loses its status after one hop")
+			c.Fail("C07.R1", "status/"+code, m.pos(), "error value "+name+" ("+code+") has no entry in errorStatuses: it is answered 500 and loses its status after one hop")
 			continue
 		}
 		want, known := specStatus[code]
 		if !known {
-			c.Fail("C07.R1", "status/"+code, m.Table.Pos(), "code "+code+" is not in the reviewed specification table (DESIGN A.5)")
+			c.Fail("C07.R1", "status/"+code, m.pos(), "code "+code+" is not in the reviewed specification table (DESIGN A.5)")
 			continue
 		}
-		c.Check(st == want, "C07.R1", "status/"+code, m.Table.Pos(), sprintf("%s -> %d", code, st), sprintf("errorStatuses maps %s to %d; the distribution spec assigns %d", code, st, want))
+		c.Check(st == want, "C07.R1", "status/"+code, m.pos(), sprintf("%s -> %d", code, st), sprintf("errorStatuses maps %s to %d; the distribution spec assigns %d", code, st, want))
 	}
 	for name := range m.StatusOf {
 		if _, ok := m.CodeOf[name]; !ok {
-			c.Fail("C07.R1", "status-key/"+name, m.Table.Pos(), "errorStatuses has a key that is not the code of a package-level Err* value")
+			c.Fail("C07.R1", "status-key/"+name, m.pos(), "errorStatuses has a key that is not the code of a package-level Err* value")
 		}
 	}
 	// duplicate codes
 	seen := map[string]string{}
 	for name, code := range m.CodeOf {
 		if prev, dup := seen[code]; dup {
-			c.Fail("C07.R1", "code-unique/"+code, m.Table.Pos(), "code "+code+" is shared by "+prev+" and "+name)
+			c.Fail("C07.R1", "code-unique/"+code, m.pos(), "code "+code+" is shared by "+prev+" and "+name)
 		}
 		seen[code] = name
 	}
@@ -300,6 +390,18 @@ func c07StatusPath(c *core.Ctx) {
 		}
 		_, fld, isF := facts.FieldOf(facts.Resolve(args[2]))
 		okCode := isF && fld == "Code_"
+		if !okCode {
+			// or: the very value that is stored as the Code_ of the wire error
+			for _, b := range me.Blocks {
+				for _, in := range b.Instrs {
+					if st, isSt := in.(*ssa.Store); isSt {
+						if _, f2, isF2 := facts.FieldOf(st.Addr); isF2 && f2 == "Code_" && facts.Resolve(st.Val) == facts.Resolve(args[2]) {
+							okCode = true
+						}
+					}
+				}
+			}
+		}
 		c.Check(okErr && okStatus && okCode, "C07.R3", "MarshalError/trim-with-own-status-and-code", ci.Pos(), "message trimmed with the status and code that are put on the wire", "MarshalError trims the message with a status/code other than the ones it sends: prefixes added by the receiving client are not removed on the next hop, so messages grow by a prefix per hop")
 	}
 	if !found {
@@ -320,15 +422,10 @@ func c06StatusFollowsCodeOnly(c *core.Ctx, rule string) {
 			continue
 		}
 		miss := false
+		em := loadErrModel(c)
 		for _, cd := range facts.CondsAt(ci.Block()) {
-			if ex, ok := cd.V.(*ssa.Extract); ok && ex.Index == 1 && !cd.Pos {
-				if lk, ok := ex.Tuple.(*ssa.Lookup); ok {
-					if u, ok := lk.X.(*ssa.UnOp); ok {
-						if g, ok := u.X.(*ssa.Global); ok && globalName(g) == "errorStatuses" {
-							miss = true
-						}
-					}
-				}
+			if em.isTableMiss(cd) {
+				miss = true
 			}
 		}
 		c.Check(miss, rule, "MarshalError/status-precedence", ci.Pos(), "an HTTPError's own status is used only when the code table has no entry", "MarshalError takes the status from the HTTPError on a path where the code table may have an entry")
